@@ -85,9 +85,10 @@ def classify_crash(res):
     if s.get("timeout"):
         return ("hang", "watchdog", "child exceeded the wall-clock watchdog twice")
     m = re.search(r"ERROR: AddressSanitizer: ([\w-]+)", err)
-    if m:
+    if m and m.group(1) != "ABRT":
         tail = err[m.start():]
         return ("asan-" + m.group(1), first_repo_frame(tail), tail[:3000])
+    abrt_tail = err[m.start():] if m else ""
     m = re.search(r"(\S+?):(\d+):\d+: runtime error: (.+)", err)
     if m:
         kind = re.sub(r"0x[0-9a-f]+", "ADDR", m.group(3))
@@ -102,10 +103,13 @@ def classify_crash(res):
         m2 = re.search(r"(\S+):(\d+): (.+?): Assertion", err)
         where = m2.group(3)[:120] if m2 else "?"
         where = re.sub(r"std::__cxx11::basic_string<char>", "string", where)
-        return ("assert", "%s: %s" % (where, m.group(1)[:80]), err[-3000:])
+        site = first_repo_frame(abrt_tail)
+        return ("assert", "%s: %s" % (site if site != "?" else where, m.group(1)[:80]), (err[m2.start():] if m2 else err)[:3000])
     for e in res.events:
         if e.get("ev") == "terminate":
-            return ("uncaught-exception", "%s: %s" % (e.get("type"), _norm_what(e.get("what", ""))), err[-2000:])
+            return ("uncaught-exception", "%s: %s @ %s" % (e.get("type"), _norm_what(e.get("what", "")), e.get("throw_site", "?")), err[-2000:])
+    if abrt_tail:
+        return ("abort", first_repo_frame(abrt_tail), abrt_tail[:3000])
     if s.get("signal"):
         return ("signal-%d" % s["signal"], first_repo_frame(err), err[-3000:])
     if s.get("exit"):
@@ -124,7 +128,7 @@ def _norm_what(w):
 def exception_outcome(res):
     """exception that escaped Oomd::run() and was caught by the driver."""
     if res.end and res.end.get("outcome") == "exception":
-        return ("exception-escapes-run", "%s: %s" % (res.end.get("type"), _norm_what(res.end.get("what", ""))),
+        return ("exception-escapes-run", "%s: %s @ %s" % (res.end.get("type"), _norm_what(res.end.get("what", "")), res.end.get("throw_site", "?")),
                 res.end.get("what", ""))
     return None
 
@@ -134,7 +138,7 @@ def _run_shard(args):
     binpath, mode, scnfile, outdir, start, end, env = args
     e = dict(os.environ)
     e.update(env or {})
-    e.setdefault("ASAN_OPTIONS", "abort_on_error=1:detect_leaks=0:halt_on_error=1:handle_abort=0:allocator_may_return_null=1")
+    e.setdefault("ASAN_OPTIONS", "abort_on_error=1:detect_leaks=0:halt_on_error=1:handle_abort=1:allocator_may_return_null=1")
     e.setdefault("UBSAN_OPTIONS", "print_stacktrace=1:halt_on_error=1")
     p = subprocess.run([binpath, mode, scnfile, outdir, str(start), str(end)], env=e,
                        stdout=subprocess.PIPE, stderr=subprocess.PIPE, text=True)
